@@ -349,12 +349,12 @@ def fix_ptm(molecule):
                     mol_node['graph'] = molecule.subgraph([mol_idx]).copy()
                     for attr in ptm_node:
                         # FIXME: This probably transfers too many attributes.
-                        if attr not in ('PTM_atom', 'replace'):
-                            value = ptm_node[attr]
-                            # Lists (the modifications of the template atom)
-                            # are extended below; do not share them with the
-                            # template or with other atoms.
-                            mol_node[attr] = list(value) if isinstance(value, list) else value
+                        # The modifications of the touched residues are
+                        # written on all their atoms below; taking the list of
+                        # the template atom would share it with the template
+                        # and drop what an earlier modification wrote.
+                        if attr not in ('PTM_atom', 'replace', 'modifications'):
+                            mol_node[attr] = ptm_node[attr]
                 if 'replace' in ptm_node:
                     to_replace = ptm_node['replace']
                     for attr_name, val in to_replace.items():
